@@ -172,11 +172,11 @@ fn run_group<G: VariableBaseMSM>(op: &str, a: &[Arg], bases: Vec<G::MulBase>, ou
             let n = to_usize(&a[5][0]);
             let f = fks();
             let mut sc = vec![G::ScalarField::from(0u64); n];
-            for pr in f.chunks(2) {
-                if pr.len() == 2 {
-                    let idx: num_bigint::BigUint = pr[0].into_bigint().into();
-                    let idx = idx.to_u64_digits().first().copied().unwrap_or(0) as usize;
-                    if idx < n && sc[idx] == G::ScalarField::from(0u64) { sc[idx] = pr[1]; }
+            for (j, v) in f.iter().enumerate() {
+                // index j of the sparse list is a[5][2 + j] (a plain integer, not a field element)
+                if 2 + j < a[5].len() {
+                    let idx = to_usize(&a[5][2 + j]);
+                    if idx < n && sc[idx] == G::ScalarField::from(0u64) { sc[idx] = *v; }
                 }
             }
             let extra = if a[5].len() > 1 { to_usize(&a[5][1]) } else { 0 };
